@@ -22,7 +22,7 @@ import (
 func init() {
 	Register(&Spec{
 		ID: "C14", Level: "exploration",
-		Rule: "cases = chains driven by the NFT director (issue-class with every restriction-flag combination / mint / edit / transfer with and without metadata change incl. the do-not-modify sentinel / burn / re-mint / transfer-class, each by owner, class creator and stranger); after every tx the complete NFT state read through the module's queries is compared with a reference ownership map; non-trivial = successful tx or targeted hostile rejection; distinct = distinct (op, actor role, class flags, change kind, outcome); since rounds 11-14: texts at and beyond the documented lengths, recipients empty / upper-case / 32 bytes, restart from the chain's own export in every fourth chain",
+		Rule: "cases = chains driven by the NFT director (issue-class with every restriction-flag combination / mint / edit / transfer with and without metadata change incl. the do-not-modify sentinel / burn / re-mint / transfer-class, each by owner, class creator and stranger); after every tx the complete NFT state read through the module's queries is compared with a reference ownership map; non-trivial = successful tx or targeted hostile rejection; distinct = distinct (op, actor role, class flags, change kind, outcome); since rounds 11-14: texts at and beyond the documented lengths, recipients empty / upper-case / 32 bytes, restart from the chain's own export in every fourth chain; since rounds 15-19: class ids of unusual spelling (reserved beginnings, dash, zero byte, separator) are tried and minted into; a panic of the module's queries under the observer's snapshot is judged (query-panicked)",
 		Assume: []string{"the set of addresses that can own tokens is the set the director ever used as recipient", "a failed tx leaves no trace because BaseApp drops its branch"},
 		Cases:  func(t string) int { return tierN(t, 16, 32) },
 		Run:    runNFT,
